@@ -180,6 +180,11 @@ type class struct {
 	id   tls.ClientHelloID
 	mk   func() *tls.ClientHelloSpec // nil: the id's own preset
 	quic bool
+	// callerData: the spec's author put key_exchange bytes of his own into a non-GREASE share on purpose (one custom
+	// class). For every other class - parrots, randomized, fingerprinted copies - a non-GREASE share on the wire must be
+	// generated per connection whatever the spec object carries.
+	callerData bool
+	capture    []entry // fingerprinted classes: the key_share entries of the captured hello
 }
 
 func specShares(sp *tls.ClientHelloSpec) ([]specKS, bool) {
@@ -316,6 +321,11 @@ func specTerm(s []specKS) string {
 
 func generated(k specKS) bool { return !hs.IsGREASE(k.group) && k.dlen <= 1 }
 
+// mustBeFresh: by the property text this wire share has to be a fresh public key backed by a retained private key.
+func mustBeFresh(cl class, k specKS) bool {
+	return !hs.IsGREASE(k.group) && !(cl.callerData && k.dlen > 1)
+}
+
 // twoHybrids: the spec generates more than one hybrid share (both X25519MLKEM768 and X25519Kyber768Draft00).
 // KeySharePrivateKeys has one Mlkem / MlkemEcdhe slot, so the earlier one is overwritten: failures of such a
 // spec are reported under their own key (a known limitation, not the second-classical-share defect).
@@ -380,8 +390,8 @@ func examine(c *vh.Ctx, b *built, fixed bool, emitCases bool) {
 		if hs.IsGREASE(e.group) {
 			continue
 		}
-		if i < len(b.spec) && b.spec[i].dlen > 1 {
-			continue // preset Data: the caller's bytes
+		if i < len(b.spec) && !mustBeFresh(b.cl, b.spec[i]) {
+			continue // key_exchange bytes supplied by the spec's author
 		}
 		if want := requiredSize(e.group); want >= 0 && len(e.data) != want {
 			failOnce(c, fmt.Sprintf("share-size/%s/%d", name, e.group), "a non-GREASE key share does not have the size its group requires", input, len(e.data), want)
@@ -403,7 +413,7 @@ func examine(c *vh.Ctx, b *built, fixed bool, emitCases bool) {
 		extra, _ := extraKeys(b.keys)
 		all := append([]*ecdh.PrivateKey{b.keys.Ecdhe}, extra...)
 		for i, e := range b.entries {
-			if !generated(b.spec[i]) {
+			if !mustBeFresh(b.cl, b.spec[i]) {
 				continue
 			}
 			backed := false
@@ -552,7 +562,7 @@ func customClasses() []class {
 			mk: customSpec(append([]tls.KeyShare{{Group: tls.GREASE_PLACEHOLDER, Data: []byte{0}}}, ks(tls.X25519, tls.CurveP256)...), append([]tls.CurveID{tls.GREASE_PLACEHOLDER}, allGroups...))},
 		{name: "custom-two-hybrids", kind: "custom", id: tls.HelloCustom,
 			mk: customSpec(ks(tls.X25519MLKEM768, tls.X25519Kyber768Draft00, tls.X25519), append([]tls.CurveID{tls.X25519Kyber768Draft00}, allGroups...))},
-		{name: "custom-preset-data-then-p256", kind: "custom", id: tls.HelloCustom,
+		{name: "custom-preset-data-then-p256", kind: "custom", id: tls.HelloCustom, callerData: true,
 			mk: customSpec([]tls.KeyShare{{Group: tls.X25519, Data: preset}, {Group: tls.CurveP256}}, allGroups)},
 	}
 }
@@ -576,7 +586,7 @@ func fingerprinted(p *hs.PKI, cl class) (class, bool) {
 	if _, err := f.FingerprintClientHello(rec); err != nil {
 		return class{}, false
 	}
-	return class{name: "fp-" + cl.name, kind: "fingerprinted", id: tls.HelloCustom, mk: func() *tls.ClientHelloSpec {
+	return class{name: "fp-" + cl.name, kind: "fingerprinted", id: tls.HelloCustom, capture: b.entries, mk: func() *tls.ClientHelloSpec {
 		sp, _ := (&tls.Fingerprinter{AllowBluntMimicry: true}).FingerprintClientHello(rec)
 		return sp
 	}}, true
@@ -640,6 +650,15 @@ func run(c *vh.Ctx) {
 		}
 		builds[cl.name] = b
 		examine(c, b, fixed, true)
+		if cl.kind == "fingerprinted" {
+			// what the Fingerprinter made of the captured key_share entries (KeyShareExtension.Write)
+			capt := make([]string, len(cl.capture))
+			for i, e := range cl.capture {
+				capt[i] = fmt.Sprintf("(%d, %d)", e.group, len(e.data))
+			}
+			c.Case("import", fmt.Sprintf("(CImport %s %s)", vh.List(capt), specTerm(b.spec)), "import/"+cl.name, len(cl.capture) > 1,
+				map[string]any{"class": cl.name, "captured": capt, "spec": b.spec})
+		}
 	}
 
 	// ---- (2) freshness over many connections (default crypto/rand) ----
@@ -656,6 +675,18 @@ func run(c *vh.Ctx) {
 			n = nconn / 4
 		}
 		seenR, seenS, seenK := map[string]bool{}, map[string]bool{}, map[string]bool{}
+		// a fingerprinted copy must not replay the key shares of the hello it was captured from
+		for _, e := range cl.capture {
+			if hs.IsGREASE(e.group) {
+				continue
+			}
+			if isHybrid(e.group) {
+				x, ek := hybridParts(e.group, e.data)
+				seenK[string(x)], seenK[string(ek)] = true, true
+			} else {
+				seenK[string(e.data)] = true
+			}
+		}
 		for k := 0; k < n; k++ {
 			b := build(p, cl, nil)
 			if b.err != nil {
@@ -674,7 +705,7 @@ func run(c *vh.Ctx) {
 				seenS[string(b.wire.SessionID)] = true
 			}
 			for i, e := range b.entries {
-				if hs.IsGREASE(e.group) || (i < len(b.spec) && b.spec[i].dlen > 1) {
+				if hs.IsGREASE(e.group) || (i < len(b.spec) && !mustBeFresh(cl, b.spec[i])) {
 					continue
 				}
 				// hybrid shares: both halves must be fresh; classical: the share
@@ -684,8 +715,11 @@ func run(c *vh.Ctx) {
 					parts = [][]byte{x, ek}
 				}
 				for _, pt := range parts {
+					if len(pt) < 8 {
+						continue
+					}
 					if seenK[string(pt)] {
-						failOnce(c, fmt.Sprintf("repeat-share/%s/%d", cl.name, e.group), "a key share repeated (across connections or within one hello)", in, vh.Hex(pt[:8]), "fresh")
+						failOnce(c, fmt.Sprintf("repeat-share/%s/%d", cl.name, e.group), "a key share repeated (across connections, within one hello, or from the captured hello of a fingerprinted copy)", in, vh.Hex(pt[:8]), "fresh")
 					}
 					seenK[string(pt)] = true
 				}
@@ -704,11 +738,8 @@ func run(c *vh.Ctx) {
 		if quick && cl.kind == "randomized" && len(b.entries) < 2 {
 			continue
 		}
-		if quick && cl.kind == "fingerprinted" && len(b.entries) < 3 {
-			continue
-		}
 		for i, e := range b.entries {
-			if !generated(b.spec[i]) || !implementedByServer(e.group) {
+			if !mustBeFresh(cl, b.spec[i]) || !implementedByServer(e.group) {
 				continue
 			}
 			if !hs.ContainsU16(b.wire.SupportedGroups, e.group) {
